@@ -1821,6 +1821,48 @@ FALLBACK = {
 }
 for _k, _v in MC.COLL.items():
     FALLBACK.setdefault(_k.replace("^(IndexMap|HashMap|hashbrown::HashMap|hashbrown::map::HashMap)", "^" + MAPT), _v)
+# ------------------------------------------------------------------------------------------------ thread-locals
+# `thread_local! { static K: T = init }`: `const K: LocalKey<T> = LocalKey::new(K::{constant#0})`. The storage machinery of std is
+# not executed: a key has one cell per thread (`ctx.statics["w_thread"]`, 0 if the scenario has no threads), initialised on first
+# use from the key's initialiser (`K::__RUST_STD_INTERNAL_INIT` for `const { .. }`, `__rust_std_internal_init_fn` otherwise).
+def m_localkey_new(eng, ctx, f, path, args, dty):
+    a = args[0]
+    if not isinstance(a, FnItem):
+        raise Unsupported(f"LocalKey::new({a})")
+    return Native("localkey", strip_generics(a.path).rsplit("::{constant#0}", 1)[0])
+
+
+def _localkey_with(try_):
+    def h(eng, ctx, f, path, args, dty):
+        key = load(eng, ctx, args[0])
+        if not (isinstance(key, Native) and key.kind == "localkey"):
+            raise Unsupported(f"LocalKey::with on {key}")
+        kname = key.data
+
+        def script(c):
+            name = yield ("effect", lambda c_: f"tls:{kname}:{c_.statics.get('w_thread', 0)}")
+            have = yield ("effect", lambda c_: name in c_.statics)
+            if not have:
+                short = kname.split("::")[-1]
+                fnb = [b for n, b in eng.prog.bodies.items() if n.endswith("__rust_std_internal_init_fn") and (short + "::{constant#0}") in n]
+                if fnb:
+                    init = yield ("callv", fnb[0], [])
+                else:
+                    cb = eng.prog.const_value(kname + "::__RUST_STD_INTERNAL_INIT")
+                    if cb is None:
+                        raise Unsupported(f"initialiser of thread-local {kname} not found")
+                    init = yield ("effect", lambda c_: eng.eval_const_body(c_, cb))
+                yield ("effect", lambda c_: c_.statics.__setitem__(name, init))
+            r = yield ("callv", args[1], [Ptr(("static", name))])
+            return ok(r) if try_ else r
+        return Script(script)
+    return h
+
+
+FALLBACK[r"(^|::)LocalKey::new$"] = m_localkey_new
+FALLBACK[r"(^|::)LocalKey::with$"] = _localkey_with(False)
+FALLBACK[r"(^|::)LocalKey::try_with$"] = _localkey_with(True)
+
 FALLBACK.setdefault(r"^" + MAPT + r"::(with_capacity|with_hasher|with_capacity_and_hasher|default)$", lambda *a: MC.kmap())
 
 
